@@ -1,41 +1,35 @@
-(** C11: the token LIST/LSUB/STATUS write for a mailbox name (utils.QuoteString)
-    reads back, as an IMAP quoted string, as exactly that name -- all byte strings. *)
+(** C11: the token LIST/LSUB/STATUS write for a mailbox name (utils.QuoteString,
+    [quote_string] of Model/CmdTokenizer.v) reads back, as an IMAP quoted string
+    ([decode_astring], the strict reader of Spec/Names.v), as exactly that name. *)
 From Coq Require Import String Ascii List Bool Arith.
-From Raven Require Import Base.GoStr Base.GoStrFacts Model.Pattern Model.Names Spec.Names.
+From Raven Require Import Base.GoStr Base.GoStrFacts Model.Pattern Model.CmdTokenizer Model.Names Spec.Names.
 Import ListNotations.
 
-Definition esc1 (c : ascii) : str :=
-  if Ascii.eqb c bslash then [bslash; bslash] else if Ascii.eqb c dq then [bslash; dq] else [c].
+Definition escf (c : ascii) : str := if Ascii.eqb c DQUOTE || Ascii.eqb c BSLASH then [BSLASH; c] else [c].
 
-Lemma replace_twice s :
-  replace_byte (replace_byte s bslash [bslash; bslash]) dq [bslash; dq] = flat_map esc1 s.
+Lemma quote_string_esc s : quote_string s = DQUOTE :: flat_map escf s ++ [DQUOTE].
+Proof. reflexivity. Qed.
+
+Lemma strict_bs_bs s : unescape_strict (BSLASH :: BSLASH :: s) = option_map (cons BSLASH) (unescape_strict s).
+Proof. reflexivity. Qed.
+Lemma strict_bs_dq s : unescape_strict (BSLASH :: DQUOTE :: s) = option_map (cons DQUOTE) (unescape_strict s).
+Proof. reflexivity. Qed.
+Lemma strict_plain c s :
+  Ascii.eqb c BSLASH = false -> Ascii.eqb c DQUOTE = false ->
+  unescape_strict (c :: s) = option_map (cons c) (unescape_strict s).
+Proof. intros H1 H2. cbn [unescape_strict]. unfold bsl. change dq with DQUOTE. now rewrite H1, H2. Qed.
+
+Lemma strict_esc s : unescape_strict (flat_map escf s) = Some s.
 Proof.
-  unfold replace_byte. induction s as [|c s IH]; simpl; [reflexivity|].
-  rewrite flat_map_app, IH. f_equal. unfold esc1.
-  destruct (Ascii.eqb c bslash) eqn:E; simpl.
-  - reflexivity.
-  - destruct (Ascii.eqb c dq); reflexivity.
+  induction s as [|c s IH]; [reflexivity|]. cbn [flat_map]. unfold escf at 1.
+  destruct (Ascii.eqb c DQUOTE) eqn:Eq.
+  - apply Ascii.eqb_eq in Eq. subst c. cbn [orb app]. now rewrite strict_bs_dq, IH.
+  - destruct (Ascii.eqb c BSLASH) eqn:Eb.
+    + apply Ascii.eqb_eq in Eb. subst c. cbn [orb app]. now rewrite strict_bs_bs, IH.
+    + cbn [orb app]. now rewrite strict_plain, IH.
 Qed.
 
-Lemma unescape_bs_bs s : unescape (bslash :: bslash :: s) = option_map (cons bslash) (unescape s).
-Proof. reflexivity. Qed.
-Lemma unescape_bs_dq s : unescape (bslash :: dq :: s) = option_map (cons dq) (unescape s).
-Proof. reflexivity. Qed.
-Lemma unescape_plain c s :
-  Ascii.eqb c bslash = false -> Ascii.eqb c dq = false -> unescape (c :: s) = option_map (cons c) (unescape s).
-Proof. intros H1 H2. cbn [unescape]. unfold bsl. now rewrite H1, H2. Qed.
-
-Lemma unescape_esc s : unescape (flat_map esc1 s) = Some s.
-Proof.
-  induction s as [|c s IH]; [reflexivity|]. cbn [flat_map]. unfold esc1 at 1.
-  destruct (Ascii.eqb c bslash) eqn:Eb.
-  - apply Ascii.eqb_eq in Eb. subst c. cbn [app]. now rewrite unescape_bs_bs, IH.
-  - destruct (Ascii.eqb c dq) eqn:Eq.
-    + apply Ascii.eqb_eq in Eq. subst c. cbn [app]. now rewrite unescape_bs_dq, IH.
-    + cbn [app]. now rewrite unescape_plain, IH.
-Qed.
-
-Lemma decode_quoted r : decode_astring (dq :: r ++ [dq]) = unescape r.
+Lemma decode_quoted r : decode_astring (dq :: r ++ [dq]) = unescape_strict r.
 Proof.
   unfold decode_astring. replace (Ascii.eqb dq dq) with true by reflexivity.
   rewrite rev_app_distr. cbn [rev app]. replace (Ascii.eqb dq dq) with true by reflexivity.
@@ -43,4 +37,4 @@ Proof.
 Qed.
 
 Theorem quote_string_reads_back s : decode_astring (quote_string s) = Some s.
-Proof. unfold quote_string. rewrite replace_twice, decode_quoted. apply unescape_esc. Qed.
+Proof. rewrite quote_string_esc. change DQUOTE with dq. rewrite decode_quoted. apply strict_esc. Qed.
